@@ -23,6 +23,7 @@ var prop = flag.String("prop", "C01", "C01..C06")
 var profile = flag.String("profile", "mock", "mock = mocktikv's MVCC store | full = the Lean store (cgv-full) with async commit / 1PC / CheckSecondaryLocks")
 var scale = flag.Int("scale", 100, "percent of the tier's scenario count (the checks run both profiles at 60%)")
 var exhaustive = flag.String("exhaustive", "on", "C01: on = sampled scenarios + exhaustive enumeration | off | only")
+var exhLimit = flag.Int("exhlimit", 20000, "exhaustive enumeration: schedule limit of one program combination (beyond it the combination is reported incomplete)")
 var fullExe = flag.String("full", "", "path of the cgv-full executable (profile full)")
 
 // lean is the Lean store server of profile full (nil in profile mock)
